@@ -205,7 +205,11 @@ def extract(env, obj, t):
             x = getattr(obj, name)
             out.append(None if x is None else _extract_val(env, x, t2))
         elif t2["k"] == "byte":
-            out.append([(c,) for c in bytes(getattr(obj, name))])
+            raw = getattr(obj, name)
+            if isinstance(raw, str):
+                # (a dynamic bytes field nobody assigned reads as the str '' - the pinned tests fix that default)
+                raw = raw.encode("latin-1")
+            out.append([(c,) for c in bytes(raw)])
         else:
             out.append([_extract_val(env, e, t2) for e in getattr(obj, name)])
     return ("struct", out)
